@@ -349,6 +349,10 @@ def query_names():
     names = list(yp.eval_context.keys()) + list(pyast.API) + [n for n in dir(yp) if not n.startswith('__')] + ['__builtins__', '__class__', '__import__', '__dict__', 'eval', 'exec',
                                                                'open', 'print', 'getattr', 'query_2', 'atom_1', 'match', 'match_dynamic_2',
                                                                'unify_2', 'ATOM', 'makelist_1', '', '_', 'n', 'p'] + PAYLOADS
+    # ... and every name of which a KEY-SHAPED spelling exists (name_<arity> or name_n is how definitions are
+    # filed): the goal `list` must not reach something filed or named list_n, list_2, ...
+    import re
+    names += [re.sub(r'_(n|\d+)$', '', n) for n in names if re.search(r'_(n|\d+)$', n)]
     seen = []
     for n in names:
         if n not in seen:
